@@ -112,6 +112,7 @@ package pub
 //@ [C10] ensures required_missing_400: reqMissing ==> result0 && result1 == nil && status == 400
 //@ [C10] ensures accepted_200: result0 && result1 == nil && libWrote == 1 && b.enableFederatedProtocol && !typeUnknown && !lacksId && !lastBlocked && !reqMissing ==> status == 200
 //@ [C10] ensures library_status: libWrote == 1 ==> status == 405 || status == 400 || status == 403 || status == 200
+//@ modifies gExists, gOwnsValue, gNCol
 
 //@ func (*pub.baseActor).PostInbox
 //@ params b, c, w, r
@@ -128,6 +129,7 @@ package pub
 //@ [C10] ensures error_unwritten: result0 && result1 != nil ==> libWrote == 0
 //@ [C10] ensures one_status: result0 && result1 == nil ==> wrote == 1
 //@ modifies $db, authed, cleared, typeUnknown, lacksId, lastBlocked, reqMissing, wrote, libWrote, status, sentHdr, bodyWrites, hdr, bufstr, H:net/url.URL.Host, H:net/url.URL.Scheme, A:Int, A:Iface, nDeliver, nNewID, actIdTick, leak, storedFollow, gMe, gObjWit, gDoc, gActWit
+//@ modifies gExists, gOwnsValue, gNCol
 
 //@ func (*pub.baseActor).PostOutboxScheme
 //@ params b, c, w, r, scheme
